@@ -1,4 +1,6 @@
 import Lessm.Props.Cross
+import Lessm.Props.CrossGuard
+import Lessm.Props.CrossAt
 open Lessm.Cross
 #print axioms Lessm.Cross.vars_conservative_over_nest
 #print axioms Lessm.Cross.media_conservative_over_nest
@@ -6,3 +8,9 @@ open Lessm.Cross
 #print axioms Lessm.Cross.mixin_conservative_over_vars
 #print axioms Lessm.Cross.spec_agreement
 #print axioms Lessm.Cross.mixin_conservative_over_nest
+#print axioms Lessm.Cross.mixin_guard_is_guard_model
+#print axioms Lessm.Cross.mixin_guard_nonnumeric_fails
+#print axioms Lessm.Cross.mixin_guard_nonnumeric_chain_fails
+#print axioms Lessm.Cross.mixin_arith_is_expr_model
+#print axioms Lessm.Cross.mixin_arith_is_expr_model_sub
+#print axioms Lessm.Cross.atrule_agrees_with_media
